@@ -131,7 +131,9 @@ Fixpoint cw_rendered (ws : list Z) (i : Z) : list (Z * Z) :=
 (* ------------------------------------------------------------------ *)
 (* Pile.get_item_rows, box branch  (urwid/widget/pile.py)              *)
 
-(* first pass: rows_numbers (None = weighted, filled in later), remaining, wtotal *)
+(* first pass: rows_numbers (None = weighted, filled in later), remaining, wtotal.
+   For a PACK item the amount is the number of rows the child reports: w.pack(())[1] for a
+   fixed-only child, w.rows((maxcol,)) otherwise (resolved by the harness). *)
 Fixpoint pile_pass1 (items : list col) (remaining wtotal : Z) : list (option Z) * Z * Z :=
   match items with
   | [] => ([], remaining, wtotal)
@@ -252,8 +254,9 @@ Definition filler_values (c : fillcfg) (maxrow : option Z) (child_rows : Z) : re
 
 Record ovcfg := OvCfg { o_pad : padcfg; o_fill : fillcfg }.
 
-(* pack_w, pack_h = top_w.pack(()); flow_rows = top_w.rows((maxcol,)) *)
-Definition overlay_padding_filler (c : ovcfg) (maxcol maxrow pack_w pack_h flow_rows : Z)
+(* pack_w, pack_h = top_w.pack(()); flow_rows w = top_w.rows((w,)), asked at
+   w = maxcol - left - right, the width top_w is rendered with *)
+Definition overlay_padding_filler (c : ovcfg) (maxcol maxrow pack_w pack_h : Z) (flow_rows : Z -> Z)
   : result (Z * Z * Z * Z) :=
   let p := o_pad c in let f := o_fill c in
   let fixed := match p_wt p with WPack => true | _ => false end in
@@ -269,8 +272,9 @@ Definition overlay_padding_filler (c : ovcfg) (maxcol maxrow pack_w pack_h flow_
       else
         match f_ht f with
         | WPack =>
-            let '(top, bottom) := calculate_top_bottom_filler maxrow (f_vt f) (f_va f) WGiven flow_rows None (f_top f) (f_bottom f) in
-            if maxrow <? flow_rows then (top, maxrow - flow_rows) else (top, bottom)
+            let height := flow_rows (maxcol - lft - rgt) in
+            let '(top, bottom) := calculate_top_bottom_filler maxrow (f_vt f) (f_va f) WGiven height None (f_top f) (f_bottom f) in
+            if maxrow <? height then (top, maxrow - height) else (top, bottom)
         | ht => calculate_top_bottom_filler maxrow (f_vt f) (f_va f) ht (f_ha f) (f_minh f) (f_top f) (f_bottom f)
         end in
     Ok (lft, rgt, top, bottom).
@@ -350,6 +354,9 @@ Definition enc_pairs (l : list (Z * Z)) : list Z :=
 (* the harness' stub child: pack((mw,)) answers (min(natural width, mw), 1) *)
 Definition spy_pack_flow (nat_w : Z) (mw : Z) : Z := Z.min nat_w mw.
 
+(* the harness' stub top widget: rows((w,)) answers frn when w < thr (wrapped) and fr otherwise *)
+Definition spy_rows (fr frn thr : Z) (w : Z) : Z := if w <? thr then frn else fr.
+
 Definition dec_padcfg (l : list Z) : option (padcfg * list Z) :=
   match l with
   | a :: aa :: wt :: wa :: r =>
@@ -371,7 +378,7 @@ Definition dec_fillcfg (l : list Z) : option (fillcfg * list Z) :=
   | _ => None
   end.
 
-Definition run_case (l : list Z) : list Z :=
+Definition run_one (l : list Z) : list Z :=
   match l with
   (* 1: int_scale val val_range out_range *)
   | 1 :: v :: vr :: out :: [] =>
@@ -439,14 +446,14 @@ Definition run_case (l : list Z) : list Z :=
           end
       | None => [-1]
       end
-  (* 8: Overlay: padcfg fillcfg maxcol maxrow pack_w pack_h flow_rows *)
+  (* 8: Overlay: padcfg fillcfg maxcol maxrow pack_w pack_h flow_rows(wide) flow_rows(narrow) threshold *)
   | 8 :: r =>
       match dec_padcfg r with
       | Some (p, r2) =>
           match dec_fillcfg r2 with
-          | Some (f, maxcol :: maxrow :: pw :: ph :: fr :: []) =>
+          | Some (f, maxcol :: maxrow :: pw :: ph :: fr :: frn :: thr :: []) =>
               let c := OvCfg p f in
-              match overlay_padding_filler c maxcol maxrow pw ph fr with
+              match overlay_padding_filler c maxcol maxrow pw ph (spy_rows fr frn thr) with
               | Ok (le, ri, t, b) =>
                   [0; le; ri; t; b] ++ enc_list (overlay_top_w_size c maxcol maxrow le ri t b)
               | Err e => [1; errcode e]
@@ -464,4 +471,23 @@ Definition run_case (l : list Z) : list Z :=
       | _ => [-1]
       end
   | _ => [-1]
+  end.
+
+(* 10: a batch of sub-cases (the layouts of one multi-step history: the harness sends the
+   configuration in force at each layout; the model is stateless, so a cache in the code
+   must be invisible): 10 (len payload)*  ->  (len reply)* *)
+Fixpoint run_batch (fuel : nat) (l : list Z) : list Z :=
+  match fuel with
+  | O => []
+  | S k =>
+      match dec_list l with
+      | Some (sub, rest) => let out := run_one sub in (zlen out :: out) ++ run_batch k rest
+      | None => []
+      end
+  end.
+
+Definition run_case (l : list Z) : list Z :=
+  match l with
+  | 10 :: r => run_batch (length r) r
+  | _ => run_one l
   end.
